@@ -157,6 +157,10 @@ class Orchestrator:
                 and not overwrite_fitted_strategies
                 and (fitted_stategy_exists or not save_fitted_strategies)
             ):
+                # the results for this strategy and dataset already exist:
+                # keep them registered with the results object, so that a
+                # run resumed over a new results object still knows them
+                self.results._append_key(strategy.name, dataset.name)
                 log.warn(
                     f"Skipping strategy: {strategy.name} on CV-fold: "
                     f"{cv_fold} of dataset: {dataset.name}"
